@@ -3,6 +3,8 @@
 package rtmp
 
 import (
+	"runtime"
+	"unsafe"
 	"fmt"
 	"reflect"
 	"sort"
@@ -164,6 +166,20 @@ func (x *verifC04Run) readerLoop(p *Protocol, done chan struct{}) {
 	}
 }
 
+// verifC04TableLock finds the mutex guarding the outstanding-request table by name (input.ltransactions); nil if this tree has
+// none of that name and type — the probe is then skipped, nothing else depends on it.
+func verifC04TableLock(p *Protocol) *sync.Mutex {
+	in := reflect.ValueOf(p).Elem().FieldByName("input")
+	if !in.IsValid() || in.Kind() != reflect.Struct {
+		return nil
+	}
+	f := in.FieldByName("ltransactions")
+	if !f.IsValid() || f.Type() != reflect.TypeOf(sync.Mutex{}) || !f.CanAddr() {
+		return nil
+	}
+	return (*sync.Mutex)(unsafe.Pointer(f.UnsafeAddr()))
+}
+
 func verifWait(m *mon.M, ch chan string, what string) (string, bool) {
 	select {
 	case r := <-ch:
@@ -264,6 +280,26 @@ func TestVerif_C04_Schedules(t *testing.T) {
 				switch sched {
 				case "alpha", "delta":
 					x.onReq = func(t float64) {
+						// we are inside the transport's Write, on the writer's goroutine, inside its WritePacket: if the table's lock is
+						// held now and stays held, the writer holds it across its transport write — the reader then cannot match an answer
+						// until the write returns, and with a transport that only takes more bytes once the answer has been consumed, never
+						if mu := verifC04TableLock(ep); mu != nil {
+							held := true
+							for k := 0; k < 400 && held; k++ {
+								if mu.TryLock() {
+									mu.Unlock()
+									held = false
+								} else {
+									runtime.Gosched()
+								}
+							}
+							if held {
+								m.Violationf("c04:table-lock-held-across-transport-write", rep, "while the writer is inside the transport's Write for %s tid=%v the transaction table's lock cannot be taken (400 attempts): an answer arriving now cannot be matched before the write returns", name, t)
+								bad = true
+								return
+							}
+							m.Count("table_lock_probed_free_inside_transport_write", 1)
+						}
 						_, ch := x.deliver(t, name, "answer")
 						alphaRes, alphaOK = verifWait(m, ch, "alpha decode inside Write")
 						m.Count("alpha_decoded_inside_write", 1)
